@@ -284,6 +284,8 @@ impl DataRecorder for VRecorder {
 // ---------------------------------------------------------------- rom set
 pub struct VRomSet {
     pub pages: std::collections::VecDeque<Vec<u8>>,
+    /// maximal number of bytes the page assets hand out per read call (0 = unlimited)
+    pub chunk: usize,
 }
 impl RomSet for VRomSet {
     type Asset = VAsset;
@@ -291,7 +293,8 @@ impl RomSet for VRomSet {
         RomFormat::Binary16KPages
     }
     fn next_asset(&mut self) -> Option<VAsset> {
-        self.pages.pop_front().map(VAsset::new)
+        let chunk = self.chunk;
+        self.pages.pop_front().map(|p| VAsset::new(p).chunked(chunk))
     }
 }
 
